@@ -168,6 +168,19 @@ theorem cget_spec {Msg Sig : Type} [DecidableEq Msg] (c : Cache Msg Sig) (i : Ms
     obtain ⟨ci, s⟩ := cs
     by_cases h : ci = i <;> simp [h]
 
+/-- What the regenerated ns→ms conversion computes on a uint64, whatever shape the source gives it
+    (`/1000/1000`, `/ nanosPerMilli` with `const nanosPerMilli = 1000 * 1000`, `/ 1000000`, …): the proof only
+    unfolds the fixed-width operators and lets `omega` do the arithmetic. A `/1000` or a seconds conversion fails here. -/
+theorem sthTimestamp_spec (ts : Int) (h0 : 0 ≤ ts) (h1 : ts < 2 ^ 64) : Gen.sthTimestamp ts = ts / 1000000 := by
+  unfold Gen.sthTimestamp
+  simp only [U64.wrap, U64.div, U64.mul, U64.add, U64.sub, Int.reduceMul, Int.reduceMod, Int.reducePow, Int.reduceDiv]
+  omega
+
+theorem sthTreeSize_spec (n : Int) (h0 : 0 ≤ n) (h1 : n < 2 ^ 64) : Gen.sthTreeSize n = n := by
+  unfold Gen.sthTreeSize
+  simp only [U64.wrap, Int.reducePow]
+  omega
+
 /-- the values of an earlier state are a prefix of the values of any later state -/
 theorem values_prefix (b1 : Backend) (ops : List Op) :
     (run b1 ops).values.take b1.leaves.length = b1.values ∧ b1.leaves.length ≤ (run b1 ops).leaves.length := by
